@@ -410,6 +410,14 @@ func (cl *Client) RoundTrip(_ *fasthttp.HostClient, req *fasthttp.Request, res *
 			// idempotent methods only, up to MaxIdemponentCallAttempts.
 			return true, err
 		}
+
+		// The connection that gave the request up may have started on a
+		// response before the server disclaimed the stream. The next attempt
+		// fills the response from nothing, as fasthttp has it do for the
+		// first: what the caller chose survives, what the server sent does not.
+		skipBody, streamBody := res.SkipBody, res.StreamBody
+		res.Reset()
+		res.SkipBody, res.StreamBody = skipBody, streamBody
 	}
 }
 
